@@ -249,6 +249,27 @@ func newMutate(kind string, key []byte, values map[string]map[string][]byte,
 	return hrpc.NewInc(ctx, table, key, values, opts...)
 }
 
+// mutHead renders the mutation-level fields of one of the two forms.
+func mutHead(m *hrpc.Mutate, cellblocks bool) (res string) {
+	defer func() {
+		if r := recover(); r != nil {
+			res = "panic"
+		}
+	}()
+	var mp *pb.MutationProto
+	if cellblocks {
+		p, _, _ := m.SerializeCellBlocks(nil)
+		mp = p.(*pb.MutateRequest).Mutation
+	} else {
+		mp = m.ToProto().(*pb.MutateRequest).Mutation
+	}
+	ts := "-"
+	if mp.Timestamp != nil {
+		ts = strconv.FormatUint(*mp.Timestamp, 10)
+	}
+	return fmt.Sprintf("ts%s.type%d.dur%d.row%s", ts, int(mp.GetMutateType()), int(mp.GetDurability()), hx(mp.Row))
+}
+
 func goProto(m *hrpc.Mutate) (res string) {
 	defer func() {
 		if r := recover(); r != nil {
@@ -301,8 +322,8 @@ func mutLine(out *Out, kind string, onev bool, ts uint64, key []byte, nilOuter b
 		ov = 1
 	}
 	cb, count, size := goCellblocks(m)
-	out.Line("c10 mut %s %d %d %s %s %s %s %d %d", kind, ov, ts, hx(key), mapStr(nilOuter, fams),
-		goProto(m), cb, count, size)
+	out.Line("c10 mut %s %d %d %s %s %s %s %d %d %s %s", kind, ov, ts, hx(key), mapStr(nilOuter, fams),
+		goProto(m), cb, count, size, mutHead(m, false), mutHead(m, true))
 }
 
 func runC10(tier string, seed uint64, out *Out) {
